@@ -8,7 +8,6 @@ package main
 import (
 	"flag"
 	"fmt"
-	"math/rand"
 	"net"
 	"sort"
 	"sync"
@@ -45,7 +44,7 @@ type sessPeer struct {
 }
 
 type sessRun struct {
-	rnd    *rand.Rand
+	rnd    *lockedRand
 	sink   *trace.Sink
 	srv    *env.Server
 	scopes []string
@@ -649,7 +648,7 @@ func sessionsCmd(args []string) int {
 		return 0
 	}
 	sched.Install(sink)
-	r := &sessRun{rnd: rand.New(rand.NewSource(*seed)), sink: sink, names: []string{"a", "b", "c"}, stats: map[string]int{}, mode: *mode}
+	r := &sessRun{rnd: newLockedRand(*seed), sink: sink, names: []string{"a", "b", "c"}, stats: map[string]int{}, mode: *mode}
 	if *namerace > 0 {
 		r.nameRace(*namerace)
 		*n = 0
